@@ -215,8 +215,22 @@ pub fn scenario_stream(set: u8, bytes: [u8; 4], n: u8, verbose: bool) -> bool {
     while i < 4 {
         if (i as u8) < n {
             let b = bytes[i];
-            let r = if set == 1 { d1.advance_state(b) } else { d2.advance_state(b) };
             let e = if set == 1 { x_set1_out(c, b) } else { x_set2_out(c, b) };
+            // natively a panic of the real code is caught per step: on a transition whose output the statements leave
+            // unconstrained it is not a violation of *this* property (it is C08's business), elsewhere it is a mismatch
+            #[cfg(not(kani))]
+            let r = {
+                let got = std::panic::catch_unwind(std::panic::AssertUnwindSafe(|| if set == 1 { d1.advance_state(b) } else { d2.advance_state(b) }));
+                match got {
+                    Ok(v) => v,
+                    Err(_) => {
+                        say!(verbose, "step {}: Set {} byte 0x{:02X} in context {:?} -> PANIC{}", i, set, b, c, if e.is_none() { "   (output unconstrained here)" } else { "   <-- MISMATCH" });
+                        return ok && e.is_none();
+                    }
+                }
+            };
+            #[cfg(kani)]
+            let r = if set == 1 { d1.advance_state(b) } else { d2.advance_state(b) };
             match e {
                 Some(ref ev) => {
                     say!(verbose, "step {}: Set {} byte 0x{:02X} in context {:?} -> {:?}   expected {:?}{}", i, set, b, c, r, ev, if &r == ev { "" } else { "   <-- MISMATCH" });
